@@ -69,6 +69,9 @@ SCENARIOS = {
     "three-threads": [[("probe", "f > a", "f", 1)], [("probe", "f > b", "f", 5)], [("probe", "g > u", "f", 9)]],
     # one thread's activation is refused (second selector names no variable) after its tooling started,
     # while the other thread's probe on the same function is active
+    # a raw overlay on a function that its own thread never tools (inert on its own): while another
+    # thread's probe instruments the function it may see events, but its calls must return normally
+    "inert-overlay-vs-probe": [[("inert", "f > a", "f", 1)] * 2, [("probe", "f > b", "f", 5)] * 2],
     "refused-activation-vs-probe": [[("probe", "f > a", "f", 1)] * 2, [("refused", ("h > w", "f > nosuchvar"), "f", 5), ("probe", "h > w", "h", 9)]],
 }
 
@@ -122,6 +125,10 @@ def make_body(ns, script):
                 except SelectorError:
                     pass
                 r = ns[fn](arg)
+            elif kind == "inert":
+                so = select(sel, env=ns)
+                with BaseOverlay(Immediate(so, trigger=lambda d, evs=evs: evs.append(({k: c.value for k, c in d.items()}, threading.get_ident() == me)))):
+                    r = ns[fn](arg)
             elif kind == "probe":
                 with probing(sel, env=ns) as p:
                     p.subscribe(lambda d, evs=evs: evs.append((dict(d), threading.get_ident() == me)))
@@ -154,7 +161,12 @@ def check_outcome(ns, scenario, run, orig):
             if r != ref_result(fn, arg):
                 probs.append({"thread": tid, "problem": f"{fn}({arg}) returned {r}, sequentially {ref_result(fn, arg)}"})
             exp = ref_events(sel, fn, arg) if kind not in ("call", "refused") else []
-            if [e for e, _ in evs] != exp:
+            if kind == "inert":
+                # whether it sees the events depends on the other thread's probe; it must not see
+                # anything else
+                if [e for e, _ in evs] not in ([], exp):
+                    probs.append({"thread": tid, "problem": f"inert overlay {sel!r} around {fn}({arg}) received {[e for e, _ in evs]}"})
+            elif [e for e, _ in evs] != exp:
                 probs.append({"thread": tid, "problem": f"probe {sel!r} around {fn}({arg}) received {[e for e, _ in evs]}, sequentially {exp}"})
             if not all(own for _, own in evs):
                 probs.append({"thread": tid, "problem": f"event of {sel!r} delivered on another thread"})
@@ -190,7 +202,7 @@ class Env:
 
             for script in scenario:
                 for kind, sel, fn, arg in script:
-                    if kind in ("call", "refused"):
+                    if kind in ("call", "refused", "inert"):
                         continue
                     with probing(sel, env=ns):
                         pass
